@@ -15,6 +15,8 @@ pub const HC_END_OP: u64 = 3; // arg1 = op index
 pub const HC_YIELD: u64 = 4;
 pub const HC_LAUNCHER_PARK: u64 = 5;
 pub const HC_JOB_DONE: u64 = 6;
+/// arg2 = 1: the calls that follow are harness set-up, not libpathrs; 0: end
+pub const HC_HARNESS: u64 = 7;
 
 #[repr(C)]
 #[derive(Clone, Copy, Default, Debug)]
